@@ -327,7 +327,7 @@ def check_programs(ctx, stream, cls, progs, nvars, oracle=True):
     oracle_batch = []
     for p, mo in zip(progs, model_outs):
         io, ids = run_impl_ids(C, cls, nvars, p)
-        case = {'cls': cls, 'nvars': nvars, 'prog': p}
+        case = {'cls': cls, 'nvars': nvars, 'prog': p, 'prog_enc': [enc_stmt(cls, s_) for s_ in p]}
         stream.case(case)
         for st in p:
             stream.count('stmt:' + st[0] + (':' + str(st[2]) if st[0] in ('bin', 'sbin', 'iop', 'isop') else ''))
@@ -384,6 +384,42 @@ def check_programs(ctx, stream, cls, progs, nvars, oracle=True):
                 stream.violate('statement %d does not denote the Spec result (%s)' % (i, show(case['prog'][i])),
                                case, {'witness_state': a['state'], 'implementation': a['lhs'], 'spec': a['rhs'],
                                       'request': r})
+
+
+# ---------------------------------------------------------------- replay
+
+def dec_scalar(j):
+    a, b = from_gq(j)
+    if b == 0:
+        return int(a) if a.denominator == 1 and abs(a) < 2 ** 53 and False else float(a)
+    return complex(float(a), float(b))
+
+
+def dec_stmt(cls, st):
+    from common import dec_term
+    k = st[0]
+    if k == 'new':
+        return ['new', st[1], dec_term(cls, st[2]), dec_scalar(st[3])]
+    if k == 'sbin':
+        return ['sbin', st[1], st[2], st[3], dec_scalar(st[4])]
+    if k == 'isop':
+        return ['isop', st[1], st[2], dec_scalar(st[3])]
+    return list(st)
+
+
+def replay(ctx, payload):
+    """re-run a recorded program: True when it no longer fails"""
+    v = payload.get('violation') or (payload.get('correspondence_disagreements') or [None])[0]
+    if not v or 'input' not in v or 'prog_enc' not in v['input']:
+        return None
+    inp = v['input']
+    cls = inp['cls']
+    prog = [dec_stmt(cls, st) for st in inp['prog_enc']]
+    st = Stream('replay', 'recorded program')
+    check_programs(ctx, st, cls, [prog], inp['nvars'])
+    for x in st.violations + st.disagreements:
+        print('replay:', x['what'])
+    return not (st.violations or st.disagreements)
 
 
 # ---------------------------------------------------------------- streams
